@@ -23,7 +23,7 @@ BATCH = 25
 PROBES_EXPECTED = ['probe:twin-compared', 'probe:stderr-nonempty', 'err@open_r/EACCES', 'err@open_w/EACCES', 'err@write/ENOSPC']
 TIERS = {"quick": {"runs": 6000, "wall": 50}, "thorough": {"runs": 250000, "wall": 840}}
 RULE = ("each run draws a program, protocol version, knobs and a session of 1-12 lines: valid requests mixed with JSON objects whose documented "
-        "keys carry arbitrary JSON (wrong types, extreme numbers, empty strings, nested containers), non-JSON lines, unknown/invisible options, "
+        "keys carry arbitrary JSON (wrong types, extreme numbers, empty strings, nested containers, text outside latin-1, lone surrogates), non-JSON lines, byte lines that are not valid UTF-8, unknown/invisible options, the deployment's pipe configuration (stdin error handler, stdout encoding), "
         "unknown menu ids, unreadable/unwritable/non-UTF-8/directory files; the last line is additionally replayed on a twin server without its "
         "offending parts; non-trivial = >=1 offending line and >=1 valid state-changing request; distinct = digest of (program shape, lines, replies)")
 REAL = c14.REAL
